@@ -154,7 +154,7 @@ class Run:
             nonlocal expected
             if invalid == 'name':
                 expected = BAD_NAME
-                return rng.choice(['10.9.9.9:1', 'nobody'])
+                return rng.choice(['10.9.9.9:1', 'nobody', '*', '#', ''])
             return rng.choice(identifiers + nicks)
 
         def program_arg():
@@ -193,7 +193,7 @@ class Run:
             return (rng.choice(['USER', 'SENICIDE', 'STOP', 2]),), None
         if method == 'end_sync':
             if invalid == 'name':
-                return ('nobody',), BAD_NAME
+                return (rng.choice(['nobody', '*', '10.9.9.9:1']),), BAD_NAME
             return (rng.choice(['', '', rng.choice(identifiers)]),), None
         if method in ('get_application_info', 'get_application_rules'):
             return (app_arg(False),), expected
